@@ -8,7 +8,9 @@ use crate::w2_ops::*;
 const CHARS: [char; 12] = ['a', 'b', 'Z', '0', ' ', 'é', 'ß', 'Ω', '€', '語', '😀', '\u{10FFFF}'];
 
 pub fn text(r: &mut Rng, max: usize) -> String {
-    let n = r.usize_below(max + 1);
+    // now and then a long text: thresholds in the code under test (chunk sizes, word-at-a-time
+    // loops, amortisation steps) lie well above the usual handful of characters
+    let n = if r.chance(1, 60) { r.usize_below(3000) } else { r.usize_below(max + 1) };
     (0..n).map(|_| *r.pick(&CHARS)).collect()
 }
 
@@ -93,6 +95,9 @@ fn hint(r: &mut Rng) -> HintKind {
 }
 
 fn small(r: &mut Rng) -> usize {
+    if r.chance(1, 80) {
+        return 300 + r.below(6000) as usize;
+    }
     match r.below(10) {
         0 => 0,
         1..=6 => r.below(6) as usize,
